@@ -146,7 +146,7 @@ CLAIMED = {
               "an exception, not a stack overflow; (3) the writer's escape table composed with the reader's is the identity "
               "on everything the writer escapes, the writer escapes both reader-special characters and emits all other bytes "
               "unchanged; (4) every switch over the value kind is exhaustive and the number probe cannot capture booleans. "
-              "The converter keeps no state between calls: no static or thread_local object besides compile-time constants (R18.5). Not decided: numeric round trip (six printed decimals), key order, values of parse_num."),
+              "The converter keeps no state between calls: no static or thread_local object besides compile-time constants (R18.5). Nothing but resource exhaustion can leave a noexcept function or destructor of the JSON value, reader and writer (R18.6, interprocedural exception flow): a rejected input is an error, never std::terminate. Not decided: numeric round trip (six printed decimals), key order, values of parse_num."),
         technique="who-may-access rule with positive fixture, recursion-cycle depth-argument analysis on the call graph, table extraction and composition",
         ref="DESIGN.md section 4 C18"),
     "C19": dict(
